@@ -245,7 +245,7 @@ func (p *Prog) Roots() []*ssa.Function {
 
 // gcBCE runs the compiler's bounds-check-elimination debug listing on the package.
 func gcBCE(repo string) (map[string]bool, error) {
-	cmd := exec.Command("go", "build", "-gcflags="+sodPath+"=-d=ssa/check_bce/debug=1", "-a", "-o", os.DevNull, ".")
+	cmd := exec.Command("go", "build", "-gcflags="+sodPath+"=-d=ssa/check_bce/debug=1", "-o", os.DevNull, ".")
 	cmd.Dir = repo
 	cmd.Env = append(os.Environ(), "GOFLAGS=-mod=mod", "GOPROXY=off", "GOSUMDB=off", "GOTOOLCHAIN=local", "GOWORK=off")
 	out, err := cmd.CombinedOutput()
@@ -257,7 +257,7 @@ func gcBCE(repo string) (map[string]bool, error) {
 		}
 		parts := strings.SplitN(strings.TrimPrefix(l, "./"), ":", 4)
 		if len(parts) >= 3 {
-			res[parts[0]+":"+parts[1]+":"+parts[2]] = true
+			res[parts[0]+":"+parts[1]] = true
 		}
 	}
 	if len(res) == 0 && err != nil {
